@@ -987,27 +987,59 @@ pub fn c12(cx: &Ctx) -> Vec<Finding> {
     // model: attached list and the live upstream instance, replayed over the log
     let mut attached: Vec<(u8, u16)> = vec![];
     let mut upstream: Option<u16> = None;
-    // expected deliveries per (sink, sub)
-    let mut expect: std::collections::BTreeMap<(u8, u16), Vec<M>> = Default::default();
-    // stack of fan-outs in progress: (span idx, recipients still to be served)
+    // expected deliveries per (sink, sub); each entry remembers the fan-out (log index of the send) it belongs to
+    let mut expect: std::collections::BTreeMap<(u8, u16), Vec<(usize, M)>> = Default::default();
+    // fan-outs in progress: (log index of the upstream send, is it a terminal, sinks not served yet)
+    let mut open: Vec<(usize, bool, Vec<(u8, u16)>)> = vec![];
     for (i, ev) in cx.h.log.iter().enumerate() {
         match ev {
+            Ev::Exit(e) => {
+                if let Some(p) = open.iter().position(|f| f.0 == *e) {
+                    open.truncate(p);
+                }
+            }
+            Ev::Step { .. } => open.clear(),
             Ev::Attach { sink, sub } => {
                 let fresh_needed = attached.is_empty();
+                let during_end = open.iter().any(|f| f.1);
                 attached.push((*sink, *sub));
                 expect.entry((*sink, *sub)).or_default();
-                // the attach call: a new upstream instance iff nobody was attached
+                // upstream subscriptions made inside this attach call (before the attach returns to its
+                // caller: the next Step, or the next event of the enclosing handler)
+                let attach_span_end = cx
+                    .subs
+                    .iter()
+                    .find(|s| s.sink == *sink && s.sub == *sub)
+                    .and_then(|s| s.greeted_at)
+                    .and_then(|g| cx.ix.span_of_enter[g])
+                    .map(|sp| cx.ix.spans[sp].end)
+                    .unwrap_or(i);
+                let horizon = cx.h.log[i..]
+                    .iter()
+                    .position(|e| matches!(e, Ev::Step { .. }))
+                    .map_or(cx.h.log.len(), |p| i + p);
                 let created: Vec<&InstInfo> = cx
                     .insts
                     .iter()
-                    .filter(|x| x.pup == pup && x.created > i && cx.subs.iter().any(|s| s.sink == *sink && s.sub == *sub && s.attach_at == i) && {
-                        // inside this attach step: before the next Step event
-                        !cx.h.log[i..x.created].iter().any(|e| matches!(e, Ev::Step { .. }))
+                    .filter(|x| x.pup == pup && x.created > i && x.created < horizon && (!during_end || x.created <= attach_span_end.max(i)))
+                    .filter(|x| {
+                        // not created by a later attach inside the same step
+                        !cx.h.log[i + 1..x.created].iter().any(|e| matches!(e, Ev::Attach { .. }))
                     })
                     .collect();
                 if fresh_needed {
                     if created.len() != 1 {
                         if !truncated {
+                            if during_end {
+                                out.push(finding(
+                                    "C12",
+                                    "C12:no-fresh-upstream-for-attach-during-end",
+                                    format!("s{sink}.{sub} subscribed from inside the delivery of the source's end (nobody is attached any more); {} upstream subscriptions were started", created.len()),
+                                    i,
+                                ));
+                                // everything after this point is a consequence of that
+                                return out;
+                            }
                             out.push(finding("C12", "C12:upstream-not-started", format!("s{sink}.{sub} attached while nobody was attached; {} upstream subscriptions were started", created.len()), i));
                         }
                     } else {
@@ -1017,8 +1049,25 @@ pub fn c12(cx: &Ctx) -> Vec<Finding> {
                     out.push(finding("C12", "C12:second-upstream-subscription", format!("s{sink}.{sub} attached while others were attached, yet upstream was subscribed again"), i));
                 }
             }
+            Ev::Enter(Site::SinkRecv { sink, sub, msg }) if *msg != M::Handshake => {
+                // served: innermost open fan-out of the same message that still owes this sink
+                if let Some(f) = open.iter_mut().rev().find(|f| f.2.contains(&(*sink, *sub))) {
+                    f.2.retain(|x| *x != (*sink, *sub));
+                }
+            }
             Ev::Enter(Site::SinkSend { sink, sub, msg }) if msg.is_terminal() => {
                 let was = attached.iter().position(|a| *a == (*sink, *sub));
+                // a sink that leaves in the middle of a fan-out that has not reached it yet is skipped by it
+                for f in open.iter_mut() {
+                    if f.2.contains(&(*sink, *sub)) {
+                        f.2.retain(|x| *x != (*sink, *sub));
+                        if let Some(v) = expect.get_mut(&(*sink, *sub)) {
+                            if let Some(p) = v.iter().rposition(|(fo, _)| *fo == f.0) {
+                                v.remove(p);
+                            }
+                        }
+                    }
+                }
                 if let Some(p) = was {
                     attached.remove(p);
                     let span = span_at(cx, i);
@@ -1039,8 +1088,9 @@ pub fn c12(cx: &Ctx) -> Vec<Finding> {
             }
             Ev::Enter(Site::PupSend { pup: p, inst, msg }) if *p == pup && Some(*inst) == upstream && *msg != M::Handshake => {
                 for a in &attached {
-                    expect.entry(*a).or_default().push(msg.clone());
+                    expect.entry(*a).or_default().push((i, msg.clone()));
                 }
+                open.push((i, msg.is_terminal(), attached.clone()));
                 if msg.is_terminal() {
                     attached.clear();
                     upstream = None;
@@ -1070,23 +1120,15 @@ pub fn c12(cx: &Ctx) -> Vec<Finding> {
     insts.sort_by_key(|i| i.created);
     for w in insts.windows(2) {
         let a = w[0];
-        let end_a = a
-            .ended_at
-            .as_ref()
-            .map(|e| e.0)
-            .into_iter()
-            .chain(a.terms.first().map(|t| t.0))
-            .min();
+        let end_a = a.ended_at.as_ref().map(|e| e.0).into_iter().chain(a.terms.first().map(|t| t.0)).min();
         if end_a.map_or(true, |e| e > w[1].created) {
             out.push(finding("C12", "C12:two-live-upstreams", format!("p{}.{} was subscribed while p{}.{} was still alive", w[1].pup, w[1].inst, a.pup, a.inst), w[1].created));
         }
     }
-    // every attached sink receives exactly what was emitted while it was attached (minus what follows its own detach)
+    // every attached sink receives exactly what was emitted while it was attached
     for s in &cx.subs {
-        let want = expect.get(&(s.sink, s.sub)).cloned().unwrap_or_default();
+        let want: Vec<M> = expect.get(&(s.sink, s.sub)).map(|v| v.iter().map(|x| x.1.clone()).collect()).unwrap_or_default();
         let got: Vec<M> = down_events(cx, s).into_iter().filter(|e| e.msg != M::Handshake).map(|e| e.msg.clone()).collect();
-        // a sink that detached itself stops receiving; its expectation list may be longer only by
-        // messages whose fan-out was in progress when it detached (those begin after the detach)
         let ok = if truncated { want.starts_with(&got) || got == want } else { got == want };
         if !ok {
             out.push(finding(
